@@ -16,6 +16,7 @@ import (
 	"bytes"
 	"context"
 	"encoding/json"
+	"errors"
 	"fmt"
 	"strconv"
 	"strings"
@@ -49,6 +50,14 @@ type Case struct {
 	// Tpl is the template text derived from Prog (kept in the case for the reader of a replay
 	// file; check() rebuilds it and refuses a case whose text does not match its program).
 	Tpl string `json:"tpl,omitempty"`
+	// After: "" = the case alone. "fresh" / "same": a FAILING variant of the case is rendered
+	// first - the case's own program over stale data (strings + "STALE", ints + 1000), with a
+	// registered function that fails at its FailAt-th call inside the loop bodies and a call that
+	// always fails at the very end - on a fresh engine ("fresh") or on the same engine / Template
+	// object as the case ("same"), on this goroutine, right before the case itself. Nothing of
+	// the failed render may reach the case: it must meet its usual expectation.
+	After  string `json:"after,omitempty"`
+	FailAt int    `json:"fail_at,omitempty"`
 }
 
 // Node is a loop, a probe, or plain text.
@@ -79,6 +88,8 @@ type Node struct {
 	Pre *PreBlock `json:"pre,omitempty"`
 	// Piece is <TAG>{{ path }}</TAG> (or bare {{ path }}, or nothing) followed by literal white space.
 	Piece *Piece `json:"piece,omitempty"`
+	// Boom exists in the failing variant only: zz({{ PATH }},{{ boom(PATH) }}).
+	Boom *string `json:"boom,omitempty"`
 }
 
 // PreBlock: Body holds loops (<template> or <span data-m>) whose bodies hold Pieces and loops.
@@ -302,8 +313,84 @@ type Task struct {
 
 func (p *Task) String() string { return fmt.Sprintf("task#%d(%s)", p.ID, p.Title) }
 
-// funcs are registered with every engine: tbadge takes the item of a []*Task as it is.
-var funcs = vuego.FuncMap{"tbadge": func(p *Task) string { return "[" + p.Title + "]" }}
+// funcsFor builds the functions registered with an engine: tbadge takes the item of a []*Task as
+// it is; boom fails at its failAt-th call since the last reset (0 = never), boomlast always.
+func funcsFor(calls *int, failAt *int) vuego.FuncMap {
+	return vuego.FuncMap{
+		"tbadge": func(p *Task) string { return "[" + p.Title + "]" },
+		"boom": func(x any) (string, error) {
+			*calls++
+			if *failAt > 0 && *calls >= *failAt {
+				return "", errors.New("boom")
+			}
+			return "", nil
+		},
+		"boomlast": func() (string, error) { return "", errors.New("boom at the end") },
+	}
+}
+
+// stale is the data of the failing variant: the same shape, recognisably different values.
+func stale(v vals.V) vals.V {
+	out := v
+	switch {
+	case v.K == "string" && !strings.HasPrefix(v.S, "<"):
+		out.S = v.S + "STALE"
+	case v.K == "int":
+		n, _ := strconv.Atoi(v.S)
+		out.S = strconv.Itoa(n + 1000)
+	}
+	if v.L != nil {
+		out.L = make([]vals.V, len(v.L))
+		for i, e := range v.L {
+			out.L[i] = stale(e)
+		}
+	}
+	if v.M != nil {
+		out.M = make(map[string]vals.V, len(v.M))
+		for k, e := range v.M {
+			out.M[k] = stale(e)
+		}
+	}
+	return out
+}
+
+// failing derives the failing variant of a case: a boom call in every loop body (after its
+// first node; not inside <pre>), a call that always fails at the end, stale data.
+func failing(c Case) Case {
+	var f Case
+	raw, _ := json.Marshal(c)
+	_ = json.Unmarshal(raw, &f)
+	var walk func(ns []Node) []Node
+	walk = func(ns []Node) []Node {
+		for i := range ns {
+			l := ns[i].Loop
+			if l == nil {
+				continue
+			}
+			l.Body = walk(l.Body)
+			if l.Else != nil {
+				l.Else.Body = walk(l.Else.Body)
+			}
+			if l.Fill == nil {
+				b := Node{Boom: &l.Var}
+				if len(l.Body) == 0 {
+					l.Body = []Node{b}
+				} else {
+					l.Body = append(l.Body[:1:1], append([]Node{b}, l.Body[1:]...)...)
+				}
+			}
+		}
+		return ns
+	}
+	f.Prog = walk(f.Prog)
+	end := "\x00end"
+	f.Prog = append(f.Prog, Node{Boom: &end})
+	for i := range f.Data.Slots {
+		f.Data.Slots[i].V = stale(f.Data.Slots[i].V)
+	}
+	f.After, f.Tpl = "", ""
+	return f
+}
 
 func taskVal(v vals.V) *Task {
 	t := &Task{Title: v.M["Title"].S}
@@ -565,14 +652,59 @@ func (d Data) build() any {
 func render(c Case, tpl string) (string, error) {
 	var buf bytes.Buffer
 	data := c.Data.build()
+	files := map[string]string{"page.vuego": tpl, "comp.vuego": compFile, "list.vuego": listFile}
+	calls, failAt := 0, 0
+	fm := funcsFor(&calls, &failAt)
+	// the failing variant first (see Case.After); its outcome is not asserted
+	var failTpl string
+	var failData any
+	if c.After != "" {
+		f := failing(c)
+		failTpl, failData = buildTemplate(f), f.Data.build()
+		files["fail.vuego"] = failTpl
+		failAt = c.FailAt
+		if failAt < 1 {
+			failAt = 2
+		}
+	}
+	var sink bytes.Buffer
 	var err error
 	switch c.API {
 	case "", "string":
-		err = vuego.New(vuego.WithFS(memfs.FromMap(map[string]string{"comp.vuego": compFile, "list.vuego": listFile})), vuego.WithFuncs(funcs)).Fill(data).RenderString(context.Background(), &buf, tpl)
+		mk := func() vuego.Template {
+			return vuego.New(vuego.WithFS(memfs.FromMap(map[string]string{"comp.vuego": compFile, "list.vuego": listFile})), vuego.WithFuncs(fm))
+		}
+		t := mk()
+		if c.After != "" {
+			_ = t.Fill(failData).RenderString(context.Background(), &sink, failTpl)
+			if c.After == "fresh" {
+				t = mk()
+			}
+		}
+		failAt = 0
+		err = t.Fill(data).RenderString(context.Background(), &buf, tpl)
 	case "fragment":
-		err = vuego.NewVue(memfs.FromMap(map[string]string{"page.vuego": tpl, "comp.vuego": compFile, "list.vuego": listFile})).Funcs(funcs).RenderFragment(&buf, "page.vuego", data)
+		mk := func() *vuego.Vue { return vuego.NewVue(memfs.FromMap(files)).Funcs(fm) }
+		v := mk()
+		if c.After != "" {
+			_ = v.RenderFragment(&sink, "fail.vuego", failData)
+			if c.After == "fresh" {
+				v = mk()
+			}
+		}
+		failAt = 0
+		err = v.RenderFragment(&buf, "page.vuego", data)
 	case "load":
-		err = vuego.NewFS(memfs.FromMap(map[string]string{"page.vuego": tpl, "comp.vuego": compFile, "list.vuego": listFile}), vuego.WithFuncs(funcs)).Load("page.vuego").Fill(data).Render(context.Background(), &buf)
+		mk := func() vuego.Template { return vuego.NewFS(memfs.FromMap(files), vuego.WithFuncs(fm)) }
+		t := mk()
+		if c.After != "" {
+			_ = t.Load("fail.vuego").Fill(failData).Render(context.Background(), &sink)
+			if c.After == "fresh" {
+				t = mk()
+			}
+		}
+		failAt = 0
+		err = t.Load("page.vuego").Fill(data).Render(context.Background(), &buf)
 	default:
 		return "", fmt.Errorf("unknown api %q", c.API)
 	}
@@ -773,6 +905,13 @@ func TestProp(t *testing.T) {
 			n++
 			if n%shards != shard {
 				return true
+			}
+			// the after-failure dimension on a rotating fifth of the enumerated cases (a quarter
+			// in the thorough tier): failing variant first, on a fresh or on the same engine,
+			// failing at the 1st .. 5th call of the failing function
+			if k := n / shards; k%run.Pick(5, 4) == 0 {
+				c.After = []string{"fresh", "same"}[k/run.Pick(5, 4)%2]
+				c.FailAt = 1 + k/run.Pick(10, 8)%5
 			}
 			c.Tpl = buildTemplate(c)
 			nt, cls := classify(c)
